@@ -112,6 +112,7 @@ def run(prop, seed, budget, ctx):
     from apischema import deserialize, serialize, ValidationError, settings
     from apischema.json_schema import deserialization_schema, serialization_schema, JsonSchemaVersion
     rnd = random.Random(seed * 7919 + sum(map(ord, prop))); pool = Pool(); g = Gen(rnd, pool, None)
+    if prop == "C07": g.kinds = g.kinds + ["reqopt", "reqopt", "optenum1"]
     g.kinds = g.kinds + ["depreq", "aggregate"]          # dependent_required / aggregate-field classes: outside the Lean model (K skipped), inside the P checks
     n_types, per = {"C06": (250, 8), "C07": (250, 8), "C18": (250, 6)}[prop]
     types = [g.ty(3) for _ in range(n_types * budget)]
